@@ -268,6 +268,17 @@ Theorem refresh_axfr_style : forall v z zs table recs ws,
 Proof. exact XfrRefresh.refresh_axfr_style. Qed.
 Print Assumptions refresh_axfr_style.
 
+(* a whole sequence of incremental refreshes: at every step the server answers the serial found in
+   the query (which is the serial the zone reached in the previous step) with a valid response
+   (refresh_plan): every refresh succeeds and the zone ends up at the server's last version *)
+Theorem refreshes_converge : forall v tables vfin, XfrRefresh.refresh_plan v tables vfin ->
+  forall z, zeq z (zone_of v) ->
+  length (refreshes z tables) = length tables
+  /\ Forall XfrRefresh.refresh_ok (refreshes z tables)
+  /\ zeq (XfrRefresh.final_zone z (refreshes z tables)) (zone_of vfin).
+Proof. exact XfrRefresh.refreshes_converge. Qed.
+Print Assumptions refreshes_converge.
+
 (* dns.query.inbound_xfr, udp_mode TRY_FIRST / ONLY: the UDP answer is the bare SOA ("use TCP") *)
 Theorem try_first_falls_back : forall v0 chain z tbu tbt wu recs ws,
   chain_ok v0 chain -> zeq z (zone_of v0) ->
